@@ -122,10 +122,27 @@ Section Step.
     | _ => true
     end.
 
+  (** "A pass in which a request of the controller failed ends with an error": nothing else wakes the controller again (the
+      work queue retries only passes that return an error or ask for a requeue), so a swallowed failure leaves the template
+      without its ObjectSet for the rest of the history. *)
+  Definition ev_failed (e : dev) : bool :=
+    match e with
+    | DCreate _ _ _ _ (CrErr | CrLost) => true
+    | DUpdate _ _ _ (WErr | WLost | WConflict | WNotFound) => true
+    | DDelete _ (DlErr | DlLost) => true
+    | DStatus _ _ _ _ _ (WErr | WLost | WConflict | WNotFound) => true
+    | _ => false
+    end.
+  Definition m07_wake : bool :=
+    match s with
+    | SDep _ _ => negb (existsb ev_failed (so_events o)) || match so_res o with OrError => true | _ => false end
+    | _ => true
+    end.
+
   Definition step_monitors07 : list bool :=
     match s with
-    | SDep _ _ => [m07_spec; m07_prev; m07_unique; m07_monotone; m07_stable; m07_noreuse; m07_progress]
-    | _ => [true; true; m07_unique; m07_monotone; m07_stable; true; true]
+    | SDep _ _ => [m07_spec; m07_prev; m07_unique; m07_monotone; m07_stable; m07_noreuse; m07_progress; m07_wake]
+    | _ => [true; true; m07_unique; m07_monotone; m07_stable; true; true; true]
     end.
 End Step.
 
@@ -178,10 +195,10 @@ Definition m07_clash_progress (c : dcase) : bool := clash_progress None (init_st
 
 (** agree; spec = template & not while paused/empty; previous complete & no unreported sibling; exactly one;
     revisions unique; increasing; stable; no reuse on a clash (counter stored); unmatched template => Create;
-    no repeated clash *)
+    no repeated clash; a failed request ends the pass with an error *)
 Definition judge07 (c : dcase) : list bool :=
   let m := monitors07 c in
-  [agree c; column 0 m; column 1 m; m07_one c; column 2 m; column 3 m; column 4 m; column 5 m; column 6 m; m07_clash_progress c].
+  [agree c; column 0 m; column 1 m; m07_one c; column 2 m; column 3 m; column 4 m; column 5 m; column 6 m; m07_clash_progress c; column 7 m].
 
 (** * Soundness of the per-pass creation monitors on the model (any hash function, any fault, any variant; fresh List). *)
 From PKO Require Import BaseProofs DeploymentProofs.
@@ -210,4 +227,57 @@ Proof.
     assert (HxL : In x (listed false w)) by (apply listed_fresh_iff; exact Hx).
     apply andb_true_iff. split; [apply negb_true_iff, Z.eqb_neq; now apply Hn0|].
     apply existsb_exists. exists (sname x). split; [now apply in_map|apply N.eqb_refl].
+Qed.
+
+
+(** * Acceptance of [m07_wake] by the model: a pass with a failed request returns the error (any hash, fault, shape, stale or not). *)
+Section Wake.
+  Variable fault : option (nat * bool).
+
+  Definition failed_dead (st : pst) : Prop := existsb ev_failed (p_evs st) = true -> p_dead st = true.
+
+  Lemma failed_dead_emit st w e dead :
+    failed_dead st -> p_dead st = false -> (existsb ev_failed e = true -> dead = true) -> failed_dead (emit st w e dead).
+  Proof.
+    intros H Hd He. unfold failed_dead, emit. cbn. rewrite existsb_app. intros Hx. apply orb_true_iff in Hx.
+    destruct Hx as [Hx|Hx]; [specialize (H Hx); congruence|now apply He].
+  Qed.
+
+  Lemma reach_failed_dead st0 st : reach fault st0 st -> failed_dead st0 -> failed_dead st.
+  Proof.
+    induction 1 as [|st H IH|st b H IH|st s life pbp H IH|st n H IH|st d prev H IH|st d H IH]; intros H0; try specialize (IH H0).
+    - exact H0.
+    - unfold read_req. destruct (p_dead st) eqn:Ed; [exact IH|]. destruct (fault_now fault st); apply failed_dead_emit; auto; discriminate.
+    - unfold get_req. destruct (p_dead st) eqn:Ed; [exact IH|]. destruct (fault_now fault st); apply failed_dead_emit; auto; discriminate.
+    - unfold upd_req. destruct (p_dead st) eqn:Ed; [exact IH|].
+      destruct (fault_now fault st); cbn [fst].
+      + destruct (find_dset _ _); [destruct (negb _)|]; cbn [fst]; apply failed_dead_emit; auto; cbn; discriminate.
+      + apply failed_dead_emit; auto.
+      + destruct (find_dset _ _); [destruct (negb _)|]; cbn [fst]; apply failed_dead_emit; auto.
+    - unfold del_req. destruct (p_dead st) eqn:Ed; [exact IH|].
+      destruct (fault_now fault st).
+      + destruct (find_dset _ _); apply failed_dead_emit; auto; cbn; discriminate.
+      + apply failed_dead_emit; auto.
+      + destruct (find_dset _ _); apply failed_dead_emit; auto; cbn; discriminate.
+    - unfold create_req. destruct (p_dead st) eqn:Ed; [exact IH|].
+      destruct (fault_now fault st); cbn [fst].
+      + destruct (find_dset _ _); cbn [fst]; apply failed_dead_emit; auto; cbn; discriminate.
+      + apply failed_dead_emit; auto.
+      + destruct (find_dset _ _); cbn [fst]; apply failed_dead_emit; auto; cbn; discriminate.
+    - unfold status_req. destruct (p_dead st) eqn:Ed; [exact IH|].
+      destruct (fault_now fault st); apply failed_dead_emit; auto; cbn; discriminate.
+  Qed.
+End Wake.
+
+Theorem monitor_sound_wake hash fault slices sliceaware rev0ok stale w w' evs r :
+  dep_pass_sh hash fault slices sliceaware rev0ok stale w = (w', evs, r) -> existsb ev_failed evs = true -> r = DpError.
+Proof.
+  intros Hp Hf. destruct (dep_pass_unfold _ _ _ _ _ _ _ _ _ _ Hp) as (st3 & d2 & -> & _ & -> & Hc).
+  assert (Hr : reach fault (st_init w) (status_req fault st3 d2)).
+  { constructor. assert (H0 : reach fault (st_init w) (st_listed fault w)) by (unfold st_listed; repeat constructor).
+    destruct Hc as [(_ & -> & _)|(_ & stp & mem & Epl & Hc)]; [assumption|].
+    pose proof (pause_loop_reach _ _ _ _ _ _ _ H0 Epl) as H1.
+    destruct Hc as [(_ & -> & _)|(_ & sta & d3 & mem' & Enr & Ear & _)]; [assumption|].
+    eapply archive_reach; [|exact Ear]. eapply new_revision_reach; eauto. }
+  rewrite (reach_failed_dead fault _ _ Hr); [reflexivity|discriminate|exact Hf].
 Qed.
